@@ -229,11 +229,11 @@ theorem upsertMeth_mem : ∀ (ms : List (Bytes × Meth)) (key : Bytes) (m : Meth
           · exact Or.inl (by simp [h])
           · exact Or.inr h
 
-theorem register_WF (k : Nat) (n n' : Node) (verb : Bytes) (mid : Nat) (mk : Unit → Outcome Meth)
+theorem registerCore_WF (k : Nat) (n n' : Node) (verb : Bytes) (mid : Nat) (mk : Unit → Outcome Meth)
     (hwf : WF k n) (hmk : ∀ m, mk () = .ok m → m.vars.length = k)
-    (h : register n verb mid mk = .ok n') : WF k n' := by
+    (h : registerCore n verb mid mk = .ok n') : WF k n' := by
   obtain ⟨segs, methods, all, vars⟩ := n
-  simp only [register] at h
+  simp only [registerCore] at h
   split at h
   · split at h
     · cases h
@@ -258,6 +258,25 @@ theorem register_WF (k : Nat) (n n' : Node) (verb : Bytes) (mid : Nat) (mk : Uni
         · subst hp; exact hmk m hm
     | err e => rw [hm] at h; simp at h
     | panic s => rw [hm] at h; simp at h
+
+theorem register_ok (n n' : Node) (verb : Bytes) (mid : Nat) (mk : Unit → Outcome Meth)
+    (h : register n verb mid mk = .ok n') :
+    ∃ m, mk () = .ok m ∧ registerCore n verb mid (fun _ => .ok m) = .ok n' := by
+  simp only [register] at h
+  cases hm : mk () with
+  | ok m => rw [hm] at h; exact ⟨m, rfl, h⟩
+  | err e => rw [hm] at h; simp at h
+  | panic s => rw [hm] at h; simp at h
+
+theorem register_of_mk (n : Node) (verb : Bytes) (mid : Nat) (mk : Unit → Outcome Meth) (m : Meth)
+    (hm : mk () = .ok m) : register n verb mid mk = registerCore n verb mid (fun _ => .ok m) := by
+  simp only [register, hm]
+
+theorem register_WF (k : Nat) (n n' : Node) (verb : Bytes) (mid : Nat) (mk : Unit → Outcome Meth)
+    (hwf : WF k n) (hmk : ∀ m, mk () = .ok m → m.vars.length = k)
+    (h : register n verb mid mk = .ok n') : WF k n' := by
+  obtain ⟨m, hm, hc⟩ := register_ok n n' verb mid mk h
+  exact registerCore_WF k n n' verb mid _ hwf (fun m' hm' => by injection hm' with hm'; subst hm'; exact hmk m hm) hc
 
 /-- walking / creating a way and registering at its end keeps the trie well-formed. -/
 theorem insertAt_WF : ∀ (es : List Edge) (n n' : Node) (k : Nat) (f : Node → Outcome Node),
